@@ -13,3 +13,4 @@ def load_all():
     from . import arith  # noqa
     from . import array  # noqa
     from . import quantity_values  # noqa
+    from . import registry  # noqa
